@@ -51,11 +51,9 @@ pub fn snapshot_violations(before: &Snapshot, after: &Snapshot, found: &dyn Fn(&
     let mut bad = Vec::new();
     for (kind, rel) in world::diff(before, after, false) {
         if kind == "atime" && found(&rel) {
-            let b = &before[&rel];
-            let a = &after[&rel];
-            if a.meta.atime >= b.meta.atime {
-                continue;
-            }
+            // (re-stamping the access time of a found entry is the permitted effect; with entries stamped by
+            // a host whose clock is ahead, "now" may be numerically smaller than the old stamp)
+            continue;
         }
         bad.push(format!("{} {}", kind, rel));
     }
@@ -113,7 +111,8 @@ impl RoCase {
 fn run_ro(case: &RoCase, rep: &mut Report) -> Vec<(String, String)> {
     run::reset_env();
     let sc = Scratch::new();
-    let old = run::base_time_ns() as i128 - 86_400_000_000_000;
+    let past = run::base_time_ns() as i128 - 86_400_000_000_000;
+    let future = run::base_time_ns() as i128 + 86_400_000_000_000;
     let key = ops::K { name: case.name.clone(), ..the_key() };
     let mut b = kismet_cache::ReadOnlyCacheBuilder::new();
     let mut roots = Vec::new();
@@ -123,6 +122,8 @@ fn run_ro(case: &RoCase, rep: &mut Report) -> Vec<(String, String)> {
             shim::passthrough(|| std::fs::create_dir_all(&root).unwrap());
         }
         if state >= 2 {
+            // state 4: entries stamped by a host whose clock is a day ahead
+            let old = if state == 4 { future } else { past };
             let dirs: Vec<PathBuf> = if sharded {
                 if state == 3 {
                     vec![root.join(ops::shard_dir_name(0))]
@@ -197,7 +198,7 @@ fn ro_cases() -> Vec<RoCase> {
     }
     names.extend(["sub/file", "sub/../key", "../ro1/key", ".app", "key/", "a/../key"].iter().map(|s| s.to_string()));
     let mut level_sets: Vec<Vec<(bool, u8)>> = Vec::new();
-    let opts: Vec<(bool, u8)> = vec![(false, 0), (false, 1), (false, 2), (true, 0), (true, 1), (true, 2), (true, 3)];
+    let opts: Vec<(bool, u8)> = vec![(false, 0), (false, 1), (false, 2), (true, 0), (true, 1), (true, 2), (true, 3), (false, 4), (true, 4)];
     for a in &opts {
         level_sets.push(vec![*a]);
         for b in &opts {
@@ -260,7 +261,8 @@ pub fn run(_tier: Tier, shard: Shard, rep: &mut Report) {
         NUL-containing and separator-containing names. Oracle: no mutating call (open for writing/creating, mkdir, rename, link, \
         unlink, chmod, truncate, write, mtime-setting utimens) targets a read-only root; recursive snapshots equal except atime \
         advancing on a found entry; missing roots stay missing. Non-trivial = a read-only level holds a copy / a degenerate root \
-        or unusual name is involved."
+        or unusual name is involved. The lookup/touch cells are repeated with every planted copy stamped one day ahead of the local \
+        clock (entries written by a host whose clock runs ahead)."
         .into();
     rep.assumptions = vec![
         "operation histories on stacked front-ends are additionally monitored inside the C11 exploration".into(),
@@ -279,6 +281,17 @@ pub fn run(_tier: Tier, shard: Shard, rep: &mut Report) {
         if no % 7001 == 0 {
             rep.sample(cell.to_json());
         }
+    }
+    // the same cells with every planted copy stamped one day ahead of the local clock (clock skew between hosts)
+    for cell in all.iter().filter(|c| matches!(c.op, MOp::Get | MOp::Touch | MOp::Ensure | MOp::Gou(_)) && c.checker == 0) {
+        no += 1;
+        if !shard.mine(no) {
+            continue;
+        }
+        FUTURE_DATED.with(|f| f.set(true));
+        record(cell, rep);
+        FUTURE_DATED.with(|f| f.set(false));
+        rep.count("future_dated_cells", 1);
     }
     for case in ro_cases() {
         no += 1;
